@@ -13,7 +13,9 @@ Outcome(kind) ==
                  "dunder_removed", "dunder_removed_2", "now_builtin", "now_bound_builtin",
                  "elem_class_now_nontype", "elem_class_now_nontype_ret",
                  \* names that still resolve to something function-like which has no place in a stub
-                 "now_closure", "prop_getter_nonfunction", "nowraps"} -> "InvalidTypeError"
+                 "now_closure", "prop_getter_nonfunction", "nowraps",
+                 \* a function kept under a new name whose OWN qualified name no longer resolves; a proxy that answers every attribute
+                 "alias_of_removed", "now_proxy"} -> "InvalidTypeError"
     \* the name is now imported from another module: the row decodes - to a function of THAT module, whose stub it belongs to
     [] kind = "moved_function" -> "ok_elsewhere"
     [] OTHER -> "ok"
